@@ -661,7 +661,7 @@ theorem St.clear_storeOK (s : St) : StoreOK s.clear :=
 theorem St.empty_storeOK (k : Kind) : StoreOK (St.empty k) :=
   ⟨fun _ => rfl, List.nodup_nil, List.nodup_nil⟩
 
-theorem St.stepOp_storeOK {s : St} (ok : StoreOK s) (op : StOp) : StoreOK (s.stepOp op).1 := by
+theorem St.stepOp_storeOK {s : St} (ok : StoreOK s) (op : ROp) : StoreOK (s.stepOp op).1 := by
   cases op with
   | add g x now => exact St.add_storeOK ok g x now
   | rem id now => exact (St.rem_shrinks s id now).storeOK ok
@@ -670,7 +670,7 @@ theorem St.stepOp_storeOK {s : St} (ok : StoreOK s) (op : StOp) : StoreOK (s.ste
   | findRules ev now => exact (St.findRules_shrinks s ev now).storeOK ok
   | clear => exact St.clear_storeOK s
 
-theorem St.runOps_storeOK (ops : List StOp) : ∀ {s : St}, StoreOK s → StoreOK (s.runOps ops) := by
+theorem St.runOps_storeOK (ops : List ROp) : ∀ {s : St}, StoreOK s → StoreOK (s.runOps ops) := by
   induction ops with
   | nil => intro s ok; exact ok
   | cons op rest ih => intro s ok; exact ih (St.stepOp_storeOK ok op)
@@ -755,7 +755,7 @@ theorem St.rem_ack {s : St} (hm : Mirror s) {id : String} {now : Int} {s' : St} 
   | indexed => rw [hk] at h; exact St.irem_ack hm h
   | linear => rw [hk] at h; exact St.lrem_ack h
 
-theorem St.stepOp_kind (s : St) (op : StOp) : (s.stepOp op).1.kind = s.kind := by
+theorem St.stepOp_kind (s : St) (op : ROp) : (s.stepOp op).1.kind = s.kind := by
   cases op with
   | add g x now =>
     cases hh : s.add g x now with
@@ -771,7 +771,7 @@ theorem St.stepOp_kind (s : St) (op : StOp) : (s.stepOp op).1.kind = s.kind := b
   | findRules ev now => exact (St.findRules_shrinks s ev now).1
   | clear => rfl
 
-theorem St.runOps_kind (ops : List StOp) : ∀ (s : St), (s.runOps ops).kind = s.kind := by
+theorem St.runOps_kind (ops : List ROp) : ∀ (s : St), (s.runOps ops).kind = s.kind := by
   induction ops with
   | nil => intro s; rfl
   | cons op rest ih => intro s; exact (ih _).trans (St.stepOp_kind s op)
